@@ -329,9 +329,93 @@ def _harness(nseq):
     return fn
 
 
+def vanish_scenario(g, conn_mod, sim, how, readonly, word_items):
+    """the selected mailbox is deleted / renamed away behind the connection's back (what another connection's DELETE /
+    RENAME does); then CLOSE: it always succeeds and deselects.  returns error|None"""
+    cfg = sim.make_config(g, tls=True)
+    login = g['Login'](cfg)
+    login.users_dict['testuser'] = g['UserMetadata'](cfg, 'testuser', password=cfg.hash_context.hash('testpass'))
+    mset = g['MailboxSet']()
+    fset = g['FilterSet']()
+    sim.run_coro(mset.add_mailbox('Other'))
+    sim.run_coro(sim.run_coro(mset.get_mailbox('Other')).append(g['AppendMessage'](b'y', None, frozenset([g['Deleted']]))))
+    cfg.set_cache['testuser'] = (mset, fset)
+    state_ref = {}
+    orig_cs = g['ConnectionState']
+
+    class _CS(orig_cs):
+        def __init__(self, *a, **k):
+            super().__init__(*a, **k)
+            state_ref['s'] = self
+    g2 = dict(g)
+    g2['ConnectionState'] = _CS
+    seen = {}
+
+    def vanish(tr):
+        if how == 'delete':
+            sim.run_coro(mset.delete_mailbox('Other'))
+        else:
+            sim.run_coro(mset.rename_mailbox('Other', 'Elsewhere'))
+        return None
+
+    def after(tr):
+        st = state_ref['s']
+        seen['selected'] = None if st._selected is None else st._selected.lookup
+        return None
+    line = list(b'c ') + word_items(0, b'CLOSE') + [13, 10]
+    if any(not isinstance(x, int) for x in line):
+        from pysymex import SymBytes
+        line = SymBytes(line, 'bytes')
+    else:
+        line = bytes(line)
+    feed = [b'l LOGIN testuser testpass\r\n', b's %s Other\r\n' % (b'EXAMINE' if readonly else b'SELECT'), vanish, line, after,
+            b'p1 LIST "" ""\r\n', b'p2 CHECK\r\n']
+    tr, state, exc = conn_mod.run_imap(g2, login, cfg, feed, local=True)
+    if exc is not None:
+        return 'connection task raised %r' % (exc,)
+    out = bytes(x if isinstance(x, int) else 63 for x in tr.output())
+    lines, conds = conn_mod.tagged(list(out))
+    if b'[SERVERBUG]' in out:
+        return 'internal-error BYE'
+    if conds.get(b'c') != 'OK':
+        return 'CLOSE of a selection whose mailbox was %sd elsewhere answered %s' % (how, conds.get(b'c'))
+    if seen.get('selected') is not None:
+        return 'CLOSE answered OK but %r is still selected' % (seen['selected'],)
+    if conds.get(b'p1') != 'OK' or conds.get(b'p2') != 'BAD':
+        return 'after CLOSE the probes LIST/CHECK answered %s/%s' % (conds.get(b'p1'), conds.get(b'p2'))
+    return None
+
+
+def _h_vanish():
+    def fn(eng):
+        from pysymex import SymInt, Outcome
+        import z3
+        how = ['delete', 'rename'][eng.choose('how', 2)]
+        readonly = bool(eng.flip('examine'))
+        bits = {}
+
+        def word_items(k, word):
+            out = []
+            for j, c in enumerate(word):
+                b = eng.fresh_bool('lc%d' % j)
+                bits[j] = b
+                out.append(SymInt(z3.If(b.t, c + 32, c)))
+            return out
+
+        def wit(m):
+            return {'how': how, 'readonly': readonly,
+                    'lower': [j for j, b in bits.items() if z3.is_true(m.eval(b.t, model_completion=True))]}
+        err = vanish_scenario(_g, _g['_conn'], _g['_sim'], how, readonly, word_items)
+        return Outcome(err is None, witness=wit, info=err)
+    return fn
+
+
 def harnesses(tier):
     from pysymex.runner import Harness
-    hs = [Harness('state_x_command', _harness(1), {'pre_states': STATES, 'commands': len(CMDS), 'sequence': 1},
+    hs = [Harness('close_after_mailbox_vanished', _h_vanish(),
+                  {'how': ['delete', 'rename'], 'selection': ['read-write', 'read-only'], 'command_case': 'symbolic'},
+                  replay='vanish', task_budget=30),
+          Harness('state_x_command', _harness(1), {'pre_states': STATES, 'commands': len(CMDS), 'sequence': 1},
                   replay='scenario', task_budget=12, sample_every=5, max_samples=30)]
     if tier == 'thorough':
         hs.append(Harness('sequences_of_2', _harness(2), {'pre_states': STATES, 'commands': len(CMDS), 'sequence': 2},
@@ -347,6 +431,11 @@ def replay(harness, w):
     from pymap.backend.dict import Login
     from pymap.user import UserMetadata
     g.update(locals())
+    if harness == 'vanish':
+        low = set(w['lower'])
+        err = vanish_scenario(g, _conn, _sim, w['how'], w['readonly'],
+                              lambda k, word: [c + 32 if j in low else c for j, c in enumerate(word)])
+        return {'violates': err is not None, 'detail': err, 'category': (err or '')[:80]}
     lower = set((k, j) for k, j in w['lower'])
 
     def word_items(k, word):
